@@ -2,6 +2,7 @@ package props
 
 import (
 	"encoding/base64"
+	"encoding/json"
 	"net/http"
 
 	"verifharness/verif"
@@ -13,6 +14,7 @@ import (
 func init() {
 	register("C07_Middleware", C07_Middleware)
 	register("C07_IssueOnlyWhenAsked", C07_IssueOnlyWhenAsked)
+	register("C07_OAuth2OnlyWhenAsked", C07_OAuth2OnlyWhenAsked)
 	register("C07_ResetRevokes", C07_ResetRevokes)
 	register("C07_MiddlewareUnderFaults", C07_MiddlewareUnderFaults)
 }
@@ -142,5 +144,60 @@ func C07_MiddlewareUnderFaults() {
 		verif.Assert(uid == a.pid, "the session belongs to the account the cookie was issued to")
 		verif.Assert(f.w.Session.Has(authboss.SessionHalfAuthKey), "a session issued from a remember cookie is always marked half-authenticated")
 		verif.Assert(!f.w.Store.HasSerial(a.rmSerial[0]), "a session issued from a remember cookie implies the cookie's token is consumed")
+	}
+}
+
+// C07_OAuth2OnlyWhenAsked: "a cookie is only issued when the user asked to be remembered", on
+// the OAuth2 path: the rm parameter given at the start of the round trip (arbitrary value, or
+// absent) decides: a completed OAuth2 login issues a remember token and cookie exactly when the
+// parameter was "true", bound to the OAuth2 account that logged in.
+func C07_OAuth2OnlyWhenAsked() {
+	verif.ReplayInInterpreter()
+	o := noGuards()
+	o.modules = append(o.modules, "oauth2")
+	o.totp, o.sms = false, false
+	f := newFlow(o)
+	params := map[string]string{}
+	rm := verif.String("p_rm", 5)
+	hasRM := verif.Choice("rm-parameter", 2) == 1
+	if hasRM {
+		params["rm"] = rm
+	}
+	if verif.Choice("other-parameter", 2) == 1 {
+		params["src"] = "n"
+	}
+	if len(params) > 0 {
+		enc, _ := json.Marshal(params)
+		f.w.Session.Set(authboss.SessionOAuth2Params, string(enc))
+	} else {
+		f.w.Session.Del(authboss.SessionOAuth2Params)
+	}
+	f.w.Session.Set(authboss.SessionOAuth2State, "STATE")
+	f.w.Session.Del(authboss.SessionKey)
+	f.preS = f.w.Session.Snapshot()
+	nTokens := len(f.w.Store.Tokens)
+	_, panicked, _ := f.serve("GET /oauth2/callback/prov", symbolicValues(), map[string]string{"state": "STATE", "code": "c"})
+	if panicked || len(f.w.ErrH.Errs) > 0 {
+		return
+	}
+	uid, has := f.w.Session.Lookup2(authboss.SessionKey)
+	verif.Witness(has, "oauth2-login-completed")
+	if !has {
+		return
+	}
+	asked := verif.And(hasRM, rm == "true")
+	verif.Witness(asked, "asked-to-be-remembered")
+	verif.Witness(!asked, "not-asked")
+	if asked {
+		verif.Assert(len(f.w.Store.Tokens) == nTokens+1, "a token is stored when the user asked to be remembered")
+		c, hasC := f.w.Cookies.Lookup2(authboss.CookieRemember)
+		verif.Assert(hasC, "a cookie is issued when the user asked to be remembered")
+		if hasC && len(f.w.Store.Tokens) == nTokens+1 {
+			last := f.w.Store.Tokens[nTokens]
+			raw, err := base64.URLEncoding.DecodeString(c)
+			verif.Assert(last.PID == uid && err == nil && rememberHash(string(raw)) == last.Hash, "the cookie is bound to the account that logged in")
+		}
+	} else {
+		verif.Assert(len(f.w.Store.Tokens) == nTokens && f.w.Cookies.WriteCalls == 0, "no cookie and no token when the user did not ask to be remembered")
 	}
 }
